@@ -49,9 +49,20 @@ RULE = ("chunks: exhaustive grid (format b h i f d x byte-order spelling x size 
         "advance x length of the other generator) plus random groups of 2-3 generators (same / different "
         "strategy, dfmt, size, byte order; WavStreams over the same / different files) with random schedules, "
         "re-entrant sources, re-chunking pipelines, partial consumption and malformed members; "
+        "extremes: every integer format x size 1..3 x length 1..2*size+1 x EVERY position (and the pad value) x {lo, hi, lo-1, "
+        "hi+1} x both strategies; wavcall: 16 spellings of keep x 9 call shapes (positional / keyword / both keywords in "
+        "both orders / three positionals / keep twice / no file / unknown keywords) + keep omitted; counted: width x "
+        "channels x 0/1/2/4 frames x every k in 0..n+2 with a byte-counting file object; "
         "non-trivial = at least one item in the input sequence / one sample in the file / one event in the history "
         "(concurrent: in some generator); distinct = distinct JSON case")
 TRUSTED = [
+    "call layer (ALV/Model/C18Call.lean): the binding of WavStream(*pos, **kw) to (wave_file, keep=False) is C08's "
+    "model of Python's argument binding, the truth value of what was passed for keep is PyV.truthy (Float != 0.0 for "
+    "floats: trusted), the seven spellings of byte_order are OrderArg; all three are compared with the real calls",
+    "bytes taken from the file: counted by a BytesIO subclass whose read() adds up what it hands out, between the end "
+    "of the constructor and the end of the k next() calls; the model's bytesRead is the data-chunk part, alignByte "
+    "the one alignment byte wave's _Chunk.read takes along with the last frame of an odd-sized chunk (the tie "
+    "accepts it only then, and only if the file has that byte)",
     "hand-written Lean model ALV/Model/C18.lean of lazy_io.chunks (struct and array strategies) and "
     "lazy_wav.WavStream (modelled, not verified: struct.Struct, array.array, wave.Wave_read.readframes, "
     "generator protocol, try/finally)",
@@ -69,7 +80,8 @@ TRUSTED = [
     "when the stream object is gone) or, unpatched, the ResourceWarnings; 'collect' is `del` + gc.collect() "
     "(WavStream sits in a reference cycle: dropping the last reference alone closes nothing -- tallied, not demanded)",
     "RIFF container (ALV/Model/C18Riff.lean): hand-written model of Wave_read.initfp / _Chunk (not proved against "
-    "a specification of RIFF beyond the small theorems C18.27-28; riff_parse_build_PENDING is stated, not proved); "
+    "a specification of RIFF; theorem riff_parse_build: every file of the builder buildRiff -- any extra chunks before / "
+    "between / after fmt and data, odd sizes padded -- is read back exactly, by induction on the chunk lists); "
     "it is run by the driver on the bytes of every file of the res cases and of the own-writer wav cases and must "
     "agree with the real wave module on header fields, data chunk and the exception class of a refused file",
     "the byte layout of the PCM files is produced by the standard `wave` module (or the harness' RIFF writer, "
@@ -121,8 +133,9 @@ MANIFEST = {
              "theorems take the element encoder as a parameter; the driver's Float.toBits / toFloat32 bytes are "
              "compared with struct.pack on every float case).  The resource theorems are about the modelled state "
              "machine (wave.open, Wave_read.close/__del__, generator finalisation), tied state by state to real "
-             "descriptors.  riff_parse_build_PENDING (every well-formed file is read back exactly) is stated, not "
-             "proved.  chunks.array in /repo was defective (D5, D5b: fixed); its "
+             "descriptors.  The RIFF reader is proved to read back every file of the Lean builder "
+             "(riff_parse_build); that the builder writes what real files look like is checked by the tie only.  "
+             "chunks.array in /repo was defective (D5, D5b: fixed); its "
              "model is the repaired code.  Independence of a generator from other live generators is true by "
              "construction in the (pure) model and is checked for /repo by single-threaded interleavings only; "
              "races that need a pre-emptive thread switch inside one call are not observable by the tie."),
@@ -318,6 +331,30 @@ def generate(rng, tier, scale=1):
                 cases.append(chunk_case("h", ">", size, rand_vals(rng, "h", size + 1), -2, strategy))
         if not quick:
             cases.append(chunk_case("h", "<", 32769, [1, 2, 3], 0, "array"))
+        # the extremes of every integer width (and their out-of-range neighbours) in EVERY position of the
+        # sequence and as pad value, both strategies (theorems int_extremes, chunks_table_struct_eq_array,
+        # chunks_stop_at_unstorable: struct.error vs OverflowError)
+        k = 0
+        for fmt in INTFMT:
+            lo, hi = int_range(fmt)
+            for size in (1, 2, 3):
+                for n in range(1, 2 * size + 2):
+                    for pos in range(n + 1):                       # pos == n: the pad value
+                        for v, bad in ((lo, False), (hi, False), (lo - 1, True), (hi + 1, True)):
+                            k += 1
+                            if quick and (k + pos) % 3 and fmt not in "bhi":
+                                continue
+                            small = [(-1) ** i * (i + 1) if lo < 0 else i + 1 for i in range(n)]
+                            xs = small[:pos] + [v] + small[pos + 1:] if pos < n else small
+                            pad = v if pos == n else (lo if k % 2 else hi)
+                            order = ORDERS[k % len(ORDERS)]
+                            kw = {"malformed": "range"} if bad and (pos < n or n % size) else {}
+                            if fmt in "lL" and order in STD_ORDERS and bad:
+                                kw = {"malformed": "range"}
+                            if k % 5 == 0:
+                                kw["shape"] = "entry"
+                            for strategy in ("struct", "array"):
+                                cases.append(chunk_case(fmt, order, size, xs, pad, strategy, extreme=pos, **kw))
     nrand = (1500 if quick else 12000) * scale
     for _ in range(nrand):
         fmt = rng.choice("bhifd" if rng.random() < 0.6 else MOREFMT)
@@ -385,6 +422,16 @@ def generate(rng, tier, scale=1):
                                                   route=("path", "fileobj", "wave")[(nf + channels + (take or 0)) % 3]))
                     # every extreme, one file
                     cases.append(wav_case(bits, channels, keep, ext[: len(ext) // channels * channels]))
+        # how much of the file is read: a file object that counts the bytes its read() hands out
+        for bits in (8, 16, 24, 32):
+            lo, hi = wav_range(bits)
+            for channels in (1, 2):
+                for nf in (0, 1, 2, 4):
+                    n = nf * channels
+                    samples = [[lo, hi, 1, 0, hi - 1, lo + 1][i % 6] for i in range(n)]
+                    for take in range(0, n + 3):
+                        cases.append(wav_case(bits, channels, (take + nf) % 2 == 0, samples, take=take, route="counted"))
+        cases.extend(generate_wavcall(rng, tier))
     for _ in range((500 if quick else 8000) * scale):
         bits = rng.choice([8, 16, 24, 32])
         channels = rng.choice([1, 2])
@@ -394,7 +441,7 @@ def generate(rng, tier, scale=1):
         take = None if rng.random() < 0.6 else rng.choice([0, 1, max(0, n - 1), n, n + 1, n + 5, rng.randint(0, n + 2)])
         rate = rng.choice([8000, 11025, 22050, 44100, 48000, 96000, 1, rng.randint(1, 400000)])
         cases.append(wav_case(bits, channels, rng.random() < 0.5, samples, rate=rate, take=take,
-                              route=rng.choice(["path", "path", "fileobj", "wave"])))
+                              route=rng.choice(["path", "path", "fileobj", "wave"] + (["counted"] * 3 if take is not None else []))))
     for _ in range((24 if quick else 200) * scale):
         bits = rng.choice([8, 16, 24, 32])
         channels = rng.choice([3, 4])
@@ -432,7 +479,8 @@ def generate(rng, tier, scale=1):
         take = None if rng.random() < 0.7 else rng.randint(0, len(samples) + 2)
         cases.append(wav_case(bits, channels, rng.random() < 0.5, samples, take=take,
                               rate=rng.choice([8000, 44100, 1, rng.randint(1, 2 ** 32 - 1)]),
-                              route=rng.choice(["path", "fileobj", "wave"]), riff=rand_riff(rng, wild=rng.random() < 0.5),
+                              route=rng.choice(["path", "fileobj", "wave"] + (["counted"] if take is not None else [])),
+                              riff=rand_riff(rng, wild=rng.random() < 0.5),
                               bad=rng.choice(c18_res.BADS) if rng.random() < 0.06 else None))
     cases.extend(generate_conc(rng, tier, scale))
     cases.extend(generate_res(rng, tier, scale))
@@ -491,6 +539,10 @@ def impl_wav(c):
                 f.write(blob)
             ws = WavStream(path, c["keep"])
             fobj = getattr(ws._file, "_i_opened_the_file", None)   # the OS-level file wave opened
+        elif route == "counted":
+            cf = _CountingFile(blob)
+            ws = WavStream(cf, c["keep"])
+            read0 = cf.handed
         elif route == "fileobj":
             ws = WavStream(io.BytesIO(blob), c["keep"])
         else:
@@ -516,6 +568,8 @@ def impl_wav(c):
         if fobj is not None:
             closed = closed and fobj.closed
         obs["closed"] = closed
+        if route == "counted":
+            obs["read"] = cf.handed - read0          # bytes taken from the file by the next() calls alone
     except Exception as e:
         return {"err": "open:" + _kind(e)}
     finally:
@@ -527,6 +581,18 @@ def impl_wav(c):
             except OSError:
                 pass
     return obs
+
+
+class _CountingFile(io.BytesIO):
+    """a file object that counts the bytes its read() hands out (what the reader chain takes from the file)"""
+    def __init__(self, blob):
+        io.BytesIO.__init__(self, blob)
+        self.handed = 0
+
+    def read(self, *a):
+        r = io.BytesIO.read(self, *a)
+        self.handed += len(r)
+        return r
 
 
 class _Counted(object):
@@ -547,8 +613,11 @@ def impl_chunks(c):
     from audiolazy import chunks, Stream
     f = chunks.struct if c["strategy"] == "struct" else chunks.array
     shape = c.get("shape", "kw")
-    if shape == "entry" and c["strategy"] == "struct" and getattr(chunks, "default", None) is chunks.struct:
-        f = chunks                                   # the StrategyDict itself: its default strategy
+    old_default = chunks.default
+    if shape == "entry":
+        # the StrategyDict itself, with `chunks.default` pointing to the strategy of the case (the docstring's
+        # hint `chunks.default = chunks.array`); restored below
+        f = chunks
     xs = [j2v(x) for x in c["xs"]]
     sr = c.get("seq_route")
     counted = None
@@ -567,6 +636,8 @@ def impl_chunks(c):
     old = chunks.size
     out, raw, err, msg = [], [], None, None
     try:
+        if shape == "entry":
+            chunks.default = chunks.struct if c["strategy"] == "struct" else chunks.array
         if c.get("size_route") == "default":
             chunks.size = c["size"]
         else:
@@ -590,6 +661,7 @@ def impl_chunks(c):
             err, msg = _kind(e), str(e)[:100]
     finally:
         chunks.size = old
+        chunks.default = old_default
     # the chunks are read again once the generator is finished (what b"".join(chunks(...)) sees)
     aliased = any(list(bytes(r)) != o for r, o in zip(raw, out))
     o = {"out": out, "err": err, "msg": msg, "aliased": aliased}
@@ -598,9 +670,108 @@ def impl_chunks(c):
     return o
 
 
+# ---------------------------------------------------------------------------------------------------
+# the CALL WavStream(wave_file, keep=False): every shape of the call, every spelling of keep
+# ---------------------------------------------------------------------------------------------------
+KEEP_SPELLINGS = [("True", True), ("False", False), ("1", 1), ("0", 0), ("2", 2), ("-1", -1), ("None", None),
+                  ("''", {"s": ""}), ("'x'", {"s": "x"}), ("'False'", {"s": "False"}), ("[]", {"list": 0}),
+                  ("[0]", {"list": 1}), ("0.0", f2j(0.0)), ("-0.0", f2j(-0.0)), ("0.5", f2j(0.5)),
+                  ("nan", f2j(float("nan")))]
+
+
+def _pyv(j):
+    if j == "FILE":
+        raise ValueError
+    if isinstance(j, dict):
+        if "s" in j:
+            return j["s"]
+        if "list" in j:
+            return [0] * j["list"]
+        return j2v(j)
+    return j
+
+
+def generate_wavcall(rng, tier):
+    """shapes: the file positionally / as wave_file=, keep positionally (SECOND parameter) / as keep= / omitted,
+    and the calls Python must refuse (three positionals, keep twice, no file, an unknown keyword)"""
+    out = []
+    i = 0
+    for name, v in KEEP_SPELLINGS:
+        for shape, pos, kw in (("pos", ["FILE", v], []), ("kw", ["FILE"], [["keep", v]]),
+                               ("kw-both", [], [["wave_file", "FILE"], ["keep", v]]),
+                               ("kw-both-rev", [], [["keep", v], ["wave_file", "FILE"]]),
+                               ("three-pos", ["FILE", v, v], []), ("keep-twice", ["FILE", v], [["keep", v]]),
+                               ("no-file", [], [["keep", v]]), ("unknown-kw:Keep", ["FILE"], [["Keep", v]]),
+                               ("unknown-kw:keeps", ["FILE"], [["keeps", v]])):
+            i += 1
+            bits = (8, 16, 24, 32)[i % 4]
+            ch = 1 + (i // 4) % 2
+            lo, hi = wav_range(bits)
+            out.append({"entry": "wavcall", "bits": bits, "channels": ch, "rate": 8000,
+                        "samples": [lo, hi, 1, hi - 1][: 2 * ch], "pos": pos, "kw": kw, "shape": shape,
+                        "spelling": name})
+    for shape, pos, kw in (("omitted", ["FILE"], []), ("omitted-kw", [], [["wave_file", "FILE"]])):
+        for bits in (8, 16, 24, 32):
+            lo, hi = wav_range(bits)
+            out.append({"entry": "wavcall", "bits": bits, "channels": 2, "rate": 8000,
+                        "samples": [lo, hi, 1, hi - 1], "pos": pos, "kw": kw, "shape": shape})
+    return out
+
+
+def impl_wavcall(c):
+    from audiolazy import WavStream
+    blob = wav_file_bytes(dict(c, keep=False))
+    f = io.BytesIO(blob)
+    pos = [f if v == "FILE" else _pyv(v) for v in c["pos"]]
+    kw = {k: (f if v == "FILE" else _pyv(v)) for k, v in c["kw"]}
+    try:
+        ws = WavStream(*pos, **kw)
+    except TypeError:
+        return {"err": "TypeError"}
+    except Exception as e:
+        return {"err": "open:" + _kind(e)}
+    out, err = [], None
+    try:
+        for x in ws:
+            out.append(x)
+    except Exception as e:
+        err = _kind(e)
+    kinds = sorted({type(x).__name__ for x in out})
+    return {"out": [enc(x) for x in out], "gen_err": err, "rate": ws.rate, "channels": ws.channels, "bits": ws.bits,
+            "kind": "none" if not kinds else (kinds[0] if len(kinds) == 1 else "mixed:" + ",".join(kinds))}
+
+
+def compare_wavcall(c, io_, drv):
+    out = []
+    if "err" in io_ or "err" in drv:
+        if io_.get("err") != drv.get("err"):
+            out.append(("model", "WavStream(%s): impl=%s model=%s" % (c["shape"], io_.get("err") or "a stream",
+                                                                       drv.get("err") or "a stream")))
+        if io_.get("err") and c["shape"] in ("pos", "kw", "kw-both", "kw-both-rev", "omitted", "omitted-kw"):
+            out.append(("spec", "a call that gives the file and keep as the signature (wave_file, keep=False) "
+                        "allows was refused: %s" % io_["err"]))
+        return out
+    for k in ("out", "gen_err", "kind", "rate", "channels", "bits"):
+        if io_[k] != drv[k]:
+            out.append(("model", "WavStream(%s, keep spelled %s): %s impl=%s model=%s" % (
+                c["shape"], c.get("spelling"), k, _s(io_[k]), _s(drv[k]))))
+    # the property, with Python's own truth value of what was passed as the oracle
+    passed = [v for v in c["pos"][1:2]] + [v for k, v in c["kw"] if k == "keep"]
+    keep = bool(_pyv(passed[0])) if passed else False
+    want = [enc(s) for s in c["samples"]] if keep else [
+        enc(Fraction(s - 128 if c["bits"] == 8 else s, 1 << (c["bits"] - 1))) for s in c["samples"]]
+    if io_["out"] != want or io_["kind"] != ("int" if keep else "float"):
+        out.append(("spec", "WavStream(%s) with keep spelled %s (%s): yields %s (%s), the stored integers%s are %s" % (
+            c["shape"], c.get("spelling"), "truthy" if keep else "falsy", _s(io_["out"]), io_["kind"],
+            "" if keep else " normalised", _s(want))))
+    return out
+
+
 def impl(c):
     if c["entry"] == "conc":
         return impl_conc(c)
+    if c["entry"] == "wavcall":
+        return impl_wavcall(c)
     if c["entry"] == "res":
         return c18_res.impl_res(c, _tmpdir(), _kind, enc)
     return impl_wav(c) if c["entry"] == "wav" else impl_chunks(c)
@@ -612,9 +783,13 @@ def request(c):
     if c["entry"] == "res":
         return request_res(c)
     if c["entry"] == "chunks":
-        return {"entry": "chunks", "fmt": c["fmt"], "native": NATIVE, "order": ORDER_REQ[c["order"]],
-                "std": c["order"] in STD_ORDERS, "long": LONG,
-                "size": c["size"], "pad": c["pad"], "xs": c["xs"]}
+        # the byte order goes to the model AS SPELLED (omit / None / "@" / "=" / "<" / ">" / "!"): what it means
+        # (OrderArg.order, OrderArg.std, resolveOrder) is the model's business (theorem byte_order_spellings)
+        return {"entry": "chunks", "fmt": c["fmt"], "native": NATIVE, "order": c["order"], "long": LONG,
+                "size": c["size"], "pad": c["pad"], "xs": c["xs"], "default": c["strategy"]}
+    if c["entry"] == "wavcall":
+        return {"entry": "wavcall", "bits": c["bits"], "channels": c["channels"], "rate": c["rate"],
+                "data": list(pcm_bytes(c["bits"], c["samples"])), "pos": c["pos"], "kw": [{"k": k, "v": v} for k, v in c["kw"]]}
     if c.get("riff") or c.get("bad"):
         # the Lean RIFF reader gets the bytes of the file and finds header and data chunk itself
         r = {"entry": "wav", "bits": c["bits"], "keep": c["keep"], "take": c.get("take"),
@@ -652,11 +827,14 @@ def compare(c, io_, drv):
         return compare_conc(c, io_, drv)
     if c["entry"] == "res":
         return c18_res.compare_res(c, io_, drv, enc, common.dec)
+    if c["entry"] == "wavcall":
+        return compare_wavcall(c, io_, drv)
     if c["entry"] == "chunks":
         if io_.get("aliased"):
             out.append(("spec", "a chunk of chunks.%s changed after it was yielded (the generator reuses the "
                         "object it yields)" % c["strategy"]))
-        m = drv[c["strategy"]]
+        # through the StrategyDict entry the model is chunksEntry with chunks.default = the case's strategy
+        m = drv["dict_entry"] if c.get("shape") == "entry" else drv[c["strategy"]]
         sp = drv["spec"] if c["strategy"] == "struct" else drv["spec_array"]
         if io_["out"] != m["out"] or io_["err"] != m["err"]:
             out.append(("model", "chunks.%s differs from the model: impl=%s/%s model=%s/%s" % (
@@ -702,6 +880,15 @@ def compare(c, io_, drv):
         if len(io_["out"]) != lz["taken"] or io_["closed"] != lz["closed"]:
             out.append(("model", "taken/closed differ from the model: impl=%d/%s model=%d/%s" % (
                 len(io_["out"]), io_["closed"], lz["taken"], lz["closed"])))
+        if "read" in io_:
+            # the alignment byte of an odd-sized data chunk goes along with its last frame when the file has one
+            if not (lz["read"] <= io_["read"] <= lz["read"] + lz["align"]):
+                out.append(("model", "bytes taken from the file by %d next() calls: impl=%d model=%d (+%d)" % (
+                    take, io_["read"], lz["read"], lz["align"])))
+            if "spec" in drv and not (lz["spec_read"] <= io_["read"] <= lz["spec_read"] + lz["align"]):
+                out.append(("spec", "bytes taken from the file by %d next() calls: impl=%d, needed (whole frames of "
+                            "the samples handed out)=%d (+%d alignment byte)" % (take, io_["read"], lz["spec_read"],
+                                                                                  lz["align"])))
     if "spec_any" in drv and "spec" in drv:
         sa = drv["spec_any"]
         sao = sa["out"] if take is None else sa["out"][:take]
@@ -741,6 +928,8 @@ def _s(x, n=160):
 
 
 def nontrivial(c, io_):
+    if c["entry"] == "wavcall":
+        return bool(c["samples"])
     if c["entry"] == "conc":
         return len(c["gens"]) >= 2 and any(nontrivial(conc_single(c, i), None) for i in range(len(c["gens"])))
     if c["entry"] == "res":
@@ -750,6 +939,11 @@ def nontrivial(c, io_):
 
 def tally(eng, c, io_):
     eng.count("entry", c["entry"])
+    if c["entry"] == "wavcall":
+        eng.count("wavcall.shape", c["shape"])
+        eng.count("wavcall.keep_spelling", c.get("spelling", "-"))
+        eng.count("wavcall.outcome", io_.get("err") or io_.get("kind"))
+        return
     if c["entry"] == "conc":
         return tally_conc(eng, c, io_)
     if c["entry"] == "res":
@@ -769,6 +963,12 @@ def tally(eng, c, io_):
             if c.get(k):
                 eng.count("chunks.route", k + "=" + c[k])
         eng.count("chunks.call_shape", c.get("shape", "kw"))
+        if c.get("shape") == "entry":
+            eng.count("chunks.dict_entry(chunks.default)", c["strategy"])
+        if "extreme" in c:
+            eng.count("chunks.extreme_position", "pad" if c["extreme"] == len(c["xs"]) else
+                      "whole-chunk" if c["extreme"] < len(c["xs"]) // c["size"] * c["size"] else "partial-tail")
+            eng.count("chunks.extreme_outcome", "%s:%s" % (c["strategy"], io_.get("err")))
         sp = {"int": 0, "float": 0, "bool": 0, "Fraction": 0}
         for v in list(c["xs"]) + [c["pad"]]:
             sp["int" if isinstance(v, int) else "bool" if "b" in v else "Fraction" if "q" in v else "float"] += 1
@@ -810,6 +1010,10 @@ def tally(eng, c, io_):
 
 
 def shrink(c):
+    if c["entry"] == "wavcall":
+        if len(c["samples"]) > c["channels"]:
+            yield dict(c, samples=c["samples"][: c["channels"]])
+        return
     if c["entry"] == "conc":
         for d in shrink_conc(c):
             yield d
@@ -862,13 +1066,18 @@ def shrink(c):
             yield dict(c, take=None)
             if c["take"] > 0:
                 yield dict(c, take=c["take"] - 1)
-        if c.get("route", "path") != "path":
+        if c.get("route", "path") not in ("path", "counted"):
             yield dict(c, route="path")
         if c["rate"] != 8000:
             yield dict(c, rate=8000)
 
 
 def neighbours(c):
+    if c["entry"] == "wavcall":
+        for d in generate_wavcall(None, "quick"):
+            if d["shape"] == c["shape"]:
+                yield dict(d, bits=c["bits"], channels=c["channels"], samples=c["samples"])
+        return
     if c["entry"] == "res":
         for src in c18_res.SOURCES:
             yield dict(c, source=src)
@@ -905,6 +1114,8 @@ def neighbours(c):
 
 
 def classify(c, io_, drv):
+    if c["entry"] == "wavcall":
+        return "wavcall:%s:%s" % (c["shape"], io_.get("err") or io_.get("kind"))
     if c["entry"] == "conc":
         return classify_conc(c, io_, drv)
     if c["entry"] == "res":
